@@ -110,5 +110,6 @@ func transC02(r *Repo) []Fact {
 	}
 	out = append(out, mgrFact(mgr))
 	out = append(out, transStep(r, mgr))
+	out = append(out, transTab(r, mgr))
 	return out
 }
